@@ -540,7 +540,7 @@ def _resolve_tracks_sizes(sizing_functions, box_size, children_positions,
                     if hypothetical_fr_size * max_function.value < sizes[0]:
                         inflexible_tracks.add(i)
                         free_space -= sizes[0]
-                        stop = free_space > 0
+                        stop = False
         flex_fraction = hypothetical_fr_size
     else:
         flex_fraction = 0
